@@ -257,6 +257,9 @@ func cmdCheck(args []string) int {
 	for _, id := range props {
 		t0 := time.Now()
 		res := runProperty(id, progs, err, *tier)
+		if *tier == "thorough" && err == nil && os.Getenv("ESCALINT_NO_SELFTEST") == "" {
+			res.selfValid = selfValidate(id, *repo, *verif, 8)
+		}
 		res.finish(id, *tier, seed, known, *verif, *noWrite, time.Since(t0).Seconds()+loadDur)
 		if res.exit != 0 {
 			exit = 1
@@ -300,6 +303,9 @@ func runProperty(id string, progs []*cfgProg, loadErr error, tier string) *propR
 			}()
 			ck.A = resolveAnchors(cp.p)
 			spec.Run(ck)
+			if tier == "thorough" && cp.name == "" && callGraphProps[id] {
+				ck.vtaObligation()
+			}
 		}()
 		res.obls = append(res.obls, ck.Obls...)
 		if cp.name == "" {
